@@ -3,6 +3,8 @@ C09 - property theorems: cumulative, difference and arg-extremum operations keep
 bookkeeping right.
 -/
 import DimModel.Lib.Missing
+import DimModel.Proofs.C09
+import DimModel.Props.C08
 namespace DimModel
 open Lib
 
@@ -193,5 +195,433 @@ theorem arg_labels {α : Type} (pick : List α → List Label → α) (a : DimAr
   injection h with h
   subst h
   exact ⟨rfl, fun _ => rfl⟩
+
+/-! ## end-to-end statements: `diff` of order `n`, cumulative scan vs reduction, arg-extrema -/
+
+open AxisLemmas
+
+/-- **diff recurses on `n`**: `n = 0` is the AssertionError, `n = 1` is one differencing step of the
+(possibly flattened) array and `n + 2` is one more differencing step applied to the result for `n + 1`
+(same axis position, scheme and keepaxis) -/
+theorem diffAxis_iterate {α : Type} (sub : α → α → α) (nan : α) (a o : DimArray α) (ax : AxisArg) (pos : Nat)
+    (s : Scheme) (k : Bool) (hd : dealWithAxis a ax = .ok (o, some pos)) :
+    diffAxis sub nan a ax s k 0 = .error .assertion ∧
+    diffAxis sub nan a ax s k 1 = diff1 sub nan o pos s k ∧
+    ∀ n, diffAxis sub nan a ax s k (n + 2) =
+      (diffAxis sub nan a ax s k (n + 1) >>= fun r => diff1 sub nan r pos s k) := by
+  refine ⟨?_, ?_, ?_⟩
+  · unfold diffAxis
+    simp only [hd, bind, Except.bind, beq_self_eq_true, if_true]
+  · rw [diffAxis_eq_go sub nan a o ax pos s k 1 hd (by omega)]
+    rfl
+  · intro n
+    rw [diffAxis_eq_go sub nan a o ax pos s k (n + 2) hd (by omega),
+      diffAxis_eq_go sub nan a o ax pos s k (n + 1) hd (by omega), diffGo_succ]
+
+/-- spec: the `n`-th finite difference at 0 of the sequence `f`, in the symbolic subtraction:
+`Δ⁰f = f 0`, `Δⁿ⁺¹f = Δⁿ(f shifted by one) - Δⁿf` -/
+def nthDiff {α : Type} (sub : α → α → α) : Nat → (Nat → α) → α
+  | 0, f => f 0
+  | n + 1, f => sub (nthDiff sub n fun m => f (m + 1)) (nthDiff sub n f)
+
+/-- closed forms for `n = 1, 2`: `a[1]-a[0]` and `(a[2]-a[1]) - (a[1]-a[0])` -/
+theorem nthDiff_one_two {α : Type} (sub : α → α → α) (f : Nat → α) :
+    nthDiff sub 1 f = sub (f 1) (f 0) ∧
+    nthDiff sub 2 f = sub (sub (f 2) (f 1)) (sub (f 1) (f 0)) := ⟨rfl, rfl⟩
+
+/-- **values and shape of `diff(n)`** (keepaxis=False, every scheme): the differenced dimension
+shrinks by `n` (to 0 when `n` exceeds its size: an empty axis, never an error), the other dimensions,
+the rank and the metadata are kept, and the cell at index `j` is the `n`-th finite difference of the
+input cells `j, j+1, .., j+n` along the axis -/
+theorem diffN_values {α : Type} (sub : α → α → α) (nan : α) (a o r : DimArray α) (ax : AxisArg) (pos : Nat)
+    (s : Scheme) (n : Nat) (hd : dealWithAxis a ax = .ok (o, some pos))
+    (h : diffAxis sub nan a ax s false n = .ok r) :
+    r.vals.shape = o.vals.shape.set pos (o.vals.shape.getD pos 0 - n) ∧
+    r.axes.length = o.axes.length ∧ r.attrs = o.attrs ∧
+    ∀ j : List Nat, pos < j.length →
+      r.vals.get j = nthDiff sub n fun m => o.vals.get (j.set pos (j.getD pos 0 + m)) := by
+  have hn : n ≠ 0 := by
+    intro h0; subst h0
+    rw [(diffAxis_iterate sub nan a o ax pos s false hd).1] at h; cases h
+  rw [diffAxis_eq_go sub nan a o ax pos s false n hd hn] at h
+  refine diffGo_induct sub nan s false pos o
+    (fun m o' => o'.vals.shape = o.vals.shape.set pos (o.vals.shape.getD pos 0 - m) ∧
+      o'.axes.length = o.axes.length ∧ o'.attrs = o.attrs ∧
+      ∀ j : List Nat, pos < j.length →
+        o'.vals.get j = nthDiff sub m fun t => o.vals.get (j.set pos (j.getD pos 0 + t)))
+    ?_ ?_ n r h
+  · refine ⟨?_, rfl, rfl, ?_⟩
+    · rw [Nat.sub_zero, set_getD_self]
+    · intro j hj
+      show o.vals.get j = o.vals.get (j.set pos (j.getD pos 0 + 0))
+      rw [Nat.add_zero, set_getD_self]
+  · intro m o' r' ⟨hsh, hlen, hat, hval⟩ hstep
+    obtain ⟨h1, h2, h3, _⟩ := diff1_shape sub nan o' r' pos s hstep
+    refine ⟨?_, h2.trans hlen, h3.trans hat, ?_⟩
+    · rw [h1, hsh, set_set_getD_pred, Nat.sub_sub]
+    · intro j hj
+      rw [diff1_values sub nan o' r' pos s hstep j, hval j hj,
+        hval (j.set pos (j.getD pos 0 + 1)) (by simpa using hj)]
+      show _ = sub _ _
+      congr 2
+      funext t
+      rw [getD_set_self' j pos _ 0 hj, List.set_set, Nat.add_assoc, Nat.add_comm 1 t]
+
+/-- `n = 2` in closed form: `out[k] = (a[k+2] - a[k+1]) - (a[k+1] - a[k])` along the axis -/
+theorem diff2_values {α : Type} (sub : α → α → α) (nan : α) (a o r : DimArray α) (ax : AxisArg) (pos : Nat)
+    (s : Scheme) (hd : dealWithAxis a ax = .ok (o, some pos))
+    (h : diffAxis sub nan a ax s false 2 = .ok r) (j : List Nat) (hj : pos < j.length) :
+    r.vals.get j =
+      sub (sub (o.vals.get (j.set pos (j.getD pos 0 + 2))) (o.vals.get (j.set pos (j.getD pos 0 + 1))))
+          (sub (o.vals.get (j.set pos (j.getD pos 0 + 1))) (o.vals.get (j.set pos (j.getD pos 0 + 0)))) :=
+  (diffN_values sub nan a o r ax pos s 2 hd h).2.2.2 j hj
+
+/-- backward and forward differences of any order `n ≥ 1` never fail (keepaxis=False), whatever the
+size of the axis -/
+theorem diffN_total {α : Type} (sub : α → α → α) (nan : α) (a o : DimArray α) (ax : AxisArg) (pos : Nat)
+    (s : Scheme) (hs : s ≠ .centered) (n : Nat) (hn : 1 ≤ n) (hd : dealWithAxis a ax = .ok (o, some pos)) :
+    ∃ r, diffAxis sub nan a ax s false n = .ok r := by
+  rw [diffAxis_eq_go sub nan a o ax pos s false n hd (by omega)]
+  clear hn hd
+  induction n with
+  | zero => exact ⟨o, rfl⟩
+  | succ n ih =>
+    obtain ⟨o', ho'⟩ := ih
+    obtain ⟨r, hr⟩ := diff1_total sub nan o' pos s hs
+    exact ⟨r, by rw [diffGo_succ, ho']; exact hr⟩
+
+/-- the labels `L'` of the differenced axis after `n` steps on labels `L`, per scheme -/
+def DiffLabels (s : Scheme) (n : Nat) (L L' : List Label) : Prop :=
+  match s with
+  | .backward => L' = L.drop n
+  | .forward => L' = L.take (L.length - n)
+  | .centered => midLabelsN n L = some L'
+
+/-- **labels of `diff(n)`**, keepaxis=False: the axis at the differenced position keeps its name;
+backward differencing drops the FIRST `n` labels, forward differencing the LAST `n`, centered
+differencing takes `n` times the successive midpoints. All other axes are untouched. -/
+theorem diffN_labels {α : Type} (sub : α → α → α) (nan : α) (a o r : DimArray α) (ax : AxisArg) (pos : Nat)
+    (s : Scheme) (n : Nat) (hd : dealWithAxis a ax = .ok (o, some pos))
+    (hpos : pos < o.axes.length) (hshape : pos < o.vals.shape.length)
+    (hsz : o.vals.shape.getD pos 0 = (o.axes.getD pos default).labels.length)
+    (h : diffAxis sub nan a ax s false n = .ok r) :
+    (r.axes.getD pos default).name = (o.axes.getD pos default).name ∧
+    (∀ i, i ≠ pos → r.axes[i]? = o.axes[i]?) ∧
+    r.vals.shape.getD pos 0 = (r.axes.getD pos default).labels.length ∧
+    DiffLabels s n (o.axes.getD pos default).labels (r.axes.getD pos default).labels := by
+  have hn : n ≠ 0 := by
+    intro h0; subst h0
+    rw [(diffAxis_iterate sub nan a o ax pos s false hd).1] at h; cases h
+  rw [diffAxis_eq_go sub nan a o ax pos s false n hd hn] at h
+  refine (diffGo_induct sub nan s false pos o
+    (fun m o' => (pos < o'.axes.length ∧ pos < o'.vals.shape.length) ∧
+      (o'.axes.getD pos default).name = (o.axes.getD pos default).name ∧
+      (∀ i, i ≠ pos → o'.axes[i]? = o.axes[i]?) ∧
+      o'.vals.shape.getD pos 0 = (o'.axes.getD pos default).labels.length ∧
+      DiffLabels s m (o.axes.getD pos default).labels (o'.axes.getD pos default).labels)
+    ?_ ?_ n r h).2
+  · refine ⟨⟨hpos, hshape⟩, rfl, fun _ _ => rfl, hsz, ?_⟩
+    cases s
+    · simp [DiffLabels]
+    · simp [DiffLabels]
+    · rfl
+  · intro m o' r' ⟨⟨hp', hs'⟩, hname, hoth, hsz', hlab⟩ hstep
+    obtain ⟨newax, haxes, hnm, _, hnew⟩ := diff1_axes sub nan o' r' pos s hstep
+    obtain ⟨hsh1, hlen1, _, _⟩ := diff1_shape sub nan o' r' pos s hstep
+    have hget : r'.axes.getD pos default = newax := by
+      rw [haxes]; exact getD_set_self' _ _ _ _ hp'
+    have hshp : r'.vals.shape.getD pos 0 = o'.vals.shape.getD pos 0 - 1 := by
+      rw [hsh1]; exact getD_set_self' _ _ _ _ hs'
+    refine ⟨⟨by rw [hlen1]; exact hp', by rw [hsh1, List.length_set]; exact hs'⟩, ?_, ?_, ?_, ?_⟩
+    · rw [hget, hnm, hname]
+    · intro i hi
+      rw [haxes, List.getElem?_set_ne (Ne.symm hi)]
+      exact hoth i hi
+    · rw [hshp, hget]
+      cases s
+      · simp only at hnew; rw [hnew]; simp
+      · simp only at hnew; rw [hnew]; simp
+      · simp only at hnew
+        rw [midLabels_length _ _ hnew, hsz']
+    · rw [hget]
+      cases s
+      · simp only [DiffLabels] at hnew hlab ⊢
+        rw [hnew, hsz', map_getD_succ_range', hlab, List.drop_drop]
+      · simp only [DiffLabels] at hnew hlab ⊢
+        rw [hnew, hsz', map_getD_range', hlab, List.dropLast_eq_take, List.take_take, List.length_take]
+        congr 1
+        omega
+      · simp only [DiffLabels] at hnew hlab ⊢
+        show (midLabelsN m _).bind midLabels = _
+        rw [hlab]
+        exact hnew
+
+/-- **`n` at least the axis size**: the differenced axis is EMPTY (no labels, size 0), not an error -/
+theorem diffN_empty {α : Type} (sub : α → α → α) (nan : α) (a o r : DimArray α) (ax : AxisArg) (pos : Nat)
+    (s : Scheme) (hs : s ≠ .centered) (n : Nat) (hd : dealWithAxis a ax = .ok (o, some pos))
+    (hpos : pos < o.axes.length) (hshape : pos < o.vals.shape.length)
+    (hsz : o.vals.shape.getD pos 0 = (o.axes.getD pos default).labels.length)
+    (hbig : o.vals.shape.getD pos 0 ≤ n)
+    (h : diffAxis sub nan a ax s false n = .ok r) :
+    (r.axes.getD pos default).labels = [] ∧ r.vals.shape.getD pos 0 = 0 := by
+  obtain ⟨_, _, hsz', hlab⟩ := diffN_labels sub nan a o r ax pos s n hd hpos hshape hsz h
+  have : (r.axes.getD pos default).labels = [] := by
+    cases s
+    · simp only [DiffLabels] at hlab
+      rw [hlab]; exact List.drop_eq_nil_of_le (by omega)
+    · simp only [DiffLabels] at hlab
+      rw [hlab, show (o.axes.getD pos default).labels.length - n = 0 by omega]; rfl
+    · exact absurd rfl hs
+  exact ⟨this, by rw [hsz', this]; rfl⟩
+
+/-- **keepaxis=True, any order**: the labels of the differenced axis, the shape, the rank and the
+metadata are those of the input -/
+theorem diffN_keepaxis {α : Type} (sub : α → α → α) (nan : α) (a o r : DimArray α) (ax : AxisArg) (pos : Nat)
+    (s : Scheme) (n : Nat) (hd : dealWithAxis a ax = .ok (o, some pos)) (hpos : pos < o.axes.length)
+    (h : diffAxis sub nan a ax s true n = .ok r) :
+    (r.axes.getD pos default).labels = (o.axes.getD pos default).labels ∧
+    r.vals.shape = o.vals.shape ∧ r.axes.length = o.axes.length ∧ r.attrs = o.attrs := by
+  have hn : n ≠ 0 := by
+    intro h0; subst h0
+    rw [(diffAxis_iterate sub nan a o ax pos s true hd).1] at h; cases h
+  rw [diffAxis_eq_go sub nan a o ax pos s true n hd hn] at h
+  refine diffGo_induct sub nan s true pos o
+    (fun _ o' => (o'.axes.getD pos default).labels = (o.axes.getD pos default).labels ∧
+      o'.vals.shape = o.vals.shape ∧ o'.axes.length = o.axes.length ∧ o'.attrs = o.attrs)
+    ⟨rfl, rfl, rfl, rfl⟩ ?_ n r h
+  intro m o' r' ⟨h1, h2, h3, h4⟩ hstep
+  obtain ⟨g1, g2, g3⟩ := diff1_keepaxis_shape sub nan o' r' pos s hstep
+  exact ⟨(diff1_keepaxis_labels sub nan o' r' pos s (h3 ▸ hpos) hstep).trans h1, g1.trans h2,
+    g2.trans h3, g3.trans h4⟩
+
+/-! ### cumulative scans end in the reduction -/
+
+/-- **the last cell of the cumulative scan is the reduction of the whole fibre**, for every fibre
+(rank ≥ 2 after the optional flattening): `cumsum(axis)[.., -1, ..] = sum(axis)` and likewise for
+every function `f` of a 1-D list, whatever the size of the axis -/
+theorem cum_last_eq_reduce {α : Type} (f : List α → α) (a o : DimArray α) (ax : AxisArg) (pos : Nat)
+    (hd : dealWithAxis a ax = .ok (o, some pos)) (hrank : o.ndim ≠ 1) :
+    ∃ rc rr, cumAxis f a ax = .ok (.inr rc) ∧ reduceAxis f a ax = .ok (.inr rr) ∧
+      rc.axes = o.axes ∧ rr.axes = o.axes.eraseIdx pos ∧
+      ∀ j : List Nat, pos ≤ j.length →
+        rc.vals.get (j.insertIdx pos (o.vals.shape.getD pos 0 - 1)) = rr.vals.get j := by
+  have hr : (o.ndim == 1) = false := by simpa using hrank
+  refine ⟨{ axes := o.axes,
+            vals := { shape := o.vals.shape,
+                      get := fun j => f ((fibre o pos (j.eraseIdx pos)).take (j.getD pos 0 + 1)) },
+            vkind := o.vkind, attrs := o.attrs },
+          { axes := o.axes.eraseIdx pos,
+            vals := { shape := o.vals.shape.eraseIdx pos, get := fun j => f (fibre o pos j) },
+            vkind := o.vkind, attrs := o.attrs }, ?_, ?_, rfl, rfl, ?_⟩
+  · unfold cumAxis
+    simp only [hd, bind, Except.bind, pure, Except.pure]
+  · unfold reduceAxis
+    simp only [hd, bind, Except.bind, pure, Except.pure, hr, Bool.false_eq_true, if_false]
+  · intro j hj
+    show f ((fibre o pos ((j.insertIdx pos _).eraseIdx pos)).take ((j.insertIdx pos _).getD pos 0 + 1))
+      = f (fibre o pos j)
+    rw [List.eraseIdx_insertIdx_self, List.getD_eq_getElem?_getD, List.getElem?_insertIdx_self,
+      if_pos hj]
+    congr 1
+    apply List.take_of_length_le
+    rw [fibre_length]
+    simp only [Option.getD_some]
+    omega
+
+/-- the same for a 1-D array (the reduction is then a scalar) -/
+theorem cum_last_eq_reduce_rank1 {α : Type} (f : List α → α) (a o : DimArray α) (ax : AxisArg) (pos : Nat)
+    (hd : dealWithAxis a ax = .ok (o, some pos)) (hrank : o.ndim = 1) (hp0 : pos = 0) :
+    ∃ rc, cumAxis f a ax = .ok (.inr rc) ∧
+      reduceAxis f a ax = .ok (.inl (rc.vals.get [o.vals.shape.getD pos 0 - 1])) := by
+  subst hp0
+  refine ⟨{ axes := o.axes,
+            vals := { shape := o.vals.shape,
+                      get := fun j => f ((fibre o 0 (j.eraseIdx 0)).take (j.getD 0 0 + 1)) },
+            vkind := o.vkind, attrs := o.attrs }, ?_, ?_⟩
+  · unfold cumAxis
+    simp only [hd, bind, Except.bind, pure, Except.pure]
+  · unfold reduceAxis
+    simp only [hd, bind, Except.bind, pure, Except.pure, hrank, beq_self_eq_true, if_true]
+    congr 3
+    show fibre o 0 [] = (fibre o 0 []).take (o.vals.shape.getD 0 0 - 1 + 1)
+    rw [List.take_of_length_le]
+    rw [fibre_length]; omega
+
+/-- axis=None: the flat cumulative result has one entry per cell and its last entry is the
+reduction of all cells in row-major order -/
+theorem cum_none_last {α : Type} (f : List α → α) (a : DimArray α) :
+    ∃ l, cumAxis f a .none = .ok (.inl l) ∧ l.length = a.vals.toList.length ∧
+      ∀ h : 0 < l.length, l[l.length - 1] = f a.vals.toList := by
+  refine ⟨(List.range a.vals.toList.length).map fun k => f (a.vals.toList.take (k + 1)), ?_, by simp, ?_⟩
+  · simp [cumAxis, dealWithAxis, bind, Except.bind, pure, Except.pure]
+  · intro h
+    simp only [List.length_map, List.length_range] at h ⊢
+    simp only [List.getElem_map, List.getElem_range]
+    rw [List.take_of_length_le (by omega)]
+
+/-- **default axis** (`axis=-1`): cumsum / cumprod (and diff) operate along the LAST dimension: all
+axes are returned unchanged and cell `j` is the scan of the prefix of the fibre along the last
+dimension -/
+theorem cum_default_last_axis {α : Type} (scan : List α → α) (a : DimArray α) (h1 : 1 ≤ a.ndim) :
+    ∃ r, cumAxis scan a (.one (.pos (-1))) = .ok (.inr r) ∧ r.axes = a.axes ∧ r.attrs = a.attrs ∧
+      r.vals.shape = a.vals.shape ∧
+      ∀ j, r.vals.get j =
+        scan ((fibre a (a.ndim - 1) (j.eraseIdx (a.ndim - 1))).take (j.getD (a.ndim - 1) 0 + 1)) := by
+  have hd : dealWithAxis a (.one (.pos (-((1 : Nat) : Int)))) = .ok (a, some (a.ndim - 1)) :=
+    dealWithAxis_neg a 1 (Nat.le_refl 1) h1
+  refine ⟨{ axes := a.axes,
+            vals := { shape := a.vals.shape,
+                      get := fun j => scan ((fibre a (a.ndim - 1) (j.eraseIdx (a.ndim - 1))).take
+                        (j.getD (a.ndim - 1) 0 + 1)) },
+            vkind := a.vkind, attrs := a.attrs }, ?_, rfl, rfl, rfl, fun _ => rfl⟩
+  unfold cumAxis
+  have hd' : dealWithAxis a (.one (.pos (-1))) = .ok (a, some (a.ndim - 1)) := hd
+  simp only [hd', bind, Except.bind, pure, Except.pure]
+
+/-! ### arg-extrema: the returned label indexes the extremum -/
+
+/-- the instance of `pick` the harness evaluates: the label at NumPy's arg-position `argp cells` -/
+def pickLabel {α : Type} (argp : List α → Nat) (lab : Label → α) : List α → List Label → α :=
+  fun cs L => lab (L.getD (argp cs) Label.none)
+
+/-- **per-fibre arg-extremum** (rank ≥ 2): for every result cell `j`, with `p` the position NumPy's
+arg function returns on the fibre through `j`: `p` is a valid position of the axis, the result cell
+is the axis label at `p`, looking that label up on the axis gives back `p` (labels are distinct),
+and the input cell at `p` along the axis through `j` is the fibre's entry number `p`, i.e. the
+extremum NumPy designated. -/
+theorem arg_value_spec {α : Type} (argp : List α → Nat) (lab : Label → α) (a : DimArray α) (k : DimKey)
+    (pos : Nat) (r : DimArray α)
+    (hpos : dealWithAxis a (.one k) = .ok (a, some pos)) (hrank : a.ndim ≠ 1)
+    (hplain : (a.axes.getD pos default).members = [])
+    (hsz : a.vals.shape.getD pos 0 = (a.axes.getD pos default).labels.length)
+    (hnd : (a.axes.getD pos default).labels.Nodup)
+    (hargp : ∀ cs : List α, cs ≠ [] → argp cs < cs.length)
+    (hne : 0 < a.vals.shape.getD pos 0)
+    (h : argAxis (pickLabel argp lab) a (.one k) = .ok (.inr r)) (j : List Nat) :
+    ∃ hp : argp (fibre a pos j) < (a.axes.getD pos default).labels.length,
+      r.vals.get j = lab ((a.axes.getD pos default).labels[argp (fibre a pos j)]) ∧
+      locateOne (a.axes.getD pos default).labels
+        ((a.axes.getD pos default).labels[argp (fibre a pos j)]) none = .ok (argp (fibre a pos j)) ∧
+      a.vals.get (j.insertIdx pos (argp (fibre a pos j))) =
+        (fibre a pos j)[argp (fibre a pos j)]'(by rw [fibre_length, hsz]; exact hp) := by
+  have hlen : (fibre a pos j).length = (a.axes.getD pos default).labels.length := by
+    rw [fibre_length, hsz]
+  have hne' : fibre a pos j ≠ [] := by
+    intro e; rw [e] at hlen; simp only [List.length_nil] at hlen; omega
+  have hp : argp (fibre a pos j) < (a.axes.getD pos default).labels.length := hlen ▸ hargp _ hne'
+  refine ⟨hp, ?_, ?_, ?_⟩
+  · rw [(arg_labels (pickLabel argp lab) a k pos r hpos hrank hplain h).2 j]
+    show lab _ = lab _
+    rw [List.getD_eq_getElem?_getD, List.getElem?_eq_getElem hp]; rfl
+  · rw [locateOne_none, if_pos (List.getElem_mem hp), firstIdx_unique hnd hp]
+  · rw [fibre_get a pos j _ (by rw [hsz]; exact hp)]
+
+/-- the same for a 1-D array: the result is the single label at NumPy's arg-position -/
+theorem arg_value_spec_rank1 {α : Type} (argp : List α → Nat) (lab : Label → α) (a : DimArray α) (k : DimKey)
+    (hpos : dealWithAxis a (.one k) = .ok (a, some 0)) (hrank : a.ndim = 1)
+    (hplain : (a.axes.getD 0 default).members = [])
+    (hsz : a.vals.shape.getD 0 0 = (a.axes.getD 0 default).labels.length)
+    (hnd : (a.axes.getD 0 default).labels.Nodup)
+    (hargp : ∀ cs : List α, cs ≠ [] → argp cs < cs.length)
+    (hne : 0 < a.vals.shape.getD 0 0) :
+    ∃ hp : argp (fibre a 0 []) < (a.axes.getD 0 default).labels.length,
+      argAxis (pickLabel argp lab) a (.one k) =
+        .ok (.inl (lab ((a.axes.getD 0 default).labels[argp (fibre a 0 [])]))) ∧
+      locateOne (a.axes.getD 0 default).labels
+        ((a.axes.getD 0 default).labels[argp (fibre a 0 [])]) none = .ok (argp (fibre a 0 [])) ∧
+      a.vals.get [argp (fibre a 0 [])] =
+        (fibre a 0 [])[argp (fibre a 0 [])]'(by rw [fibre_length, hsz]; exact hp) := by
+  have hlen : (fibre a 0 []).length = (a.axes.getD 0 default).labels.length := by
+    rw [fibre_length, hsz]
+  have hne' : fibre a 0 [] ≠ [] := by
+    intro e; rw [e] at hlen; simp only [List.length_nil] at hlen; omega
+  have hp : argp (fibre a 0 []) < (a.axes.getD 0 default).labels.length := hlen ▸ hargp _ hne'
+  refine ⟨hp, ?_, ?_, ?_⟩
+  · unfold argAxis
+    simp only [hpos, bind, Except.bind, pure, Except.pure, hrank, beq_self_eq_true, if_true, hplain,
+      List.isEmpty_nil, pickLabel]
+    rw [List.getD_eq_getElem?_getD, List.getElem?_eq_getElem hp]; rfl
+  · rw [locateOne_none, if_pos (List.getElem_mem hp), firstIdx_unique hnd hp]
+  · rw [fibre_get a 0 [] _ (by rw [hsz]; exact hp)]; rfl
+
+/-- distinct labels are needed: with a repeated label the returned label designates the FIRST
+position carrying it, which need not be the extremum's position -/
+theorem arg_label_dup_counterexample :
+    locateOne [Label.num 1, Label.num 1] ([Label.num 1, Label.num 1][1]) none = .ok 0 := by rfl
+
+/-- **whole-array arg-extremum** (axis=None; not a `Lib` function: `argAxis` does not model it, this is
+the specification of the tuple `np.unravel_index` + label lookup builds): the labels at the
+unravelled flat position `p` -/
+def argWholeLabels {α : Type} (a : DimArray α) (p : Nat) : List Label :=
+  (a.axes.zip (unravel a.vals.shape p)).map fun (ax, i) => ax.labels.getD i Label.none
+
+/-- for a flat position `p` (NumPy's arg-position over all cells in row-major order) the unravelled
+index is inside the array, holds the `p`-th cell of the row-major list, and each label of the
+returned tuple, looked up on its axis, gives back the corresponding component of that index -/
+theorem arg_whole_spec {α : Type} (a : DimArray α) (p : Nat)
+    (hshape : a.vals.shape = a.axes.map (·.labels.length))
+    (hnd : ∀ ax ∈ a.axes, ax.labels.Nodup) (hp : p < a.vals.toList.length) :
+    InRange a.vals.shape (unravel a.vals.shape p) ∧
+    a.vals.get (unravel a.vals.shape p) = a.vals.toList[p] ∧
+    (argWholeLabels a p).length = a.axes.length ∧
+    ∀ i (hi : i < a.axes.length) (hl : i < (argWholeLabels a p).length),
+      locateOne a.axes[i].labels (argWholeLabels a p)[i] none = .ok ((unravel a.vals.shape p).getD i 0) := by
+  have hp' : p < prod a.vals.shape := by rw [← toList_length]; exact hp
+  have hin := unravel_inRange a.vals.shape p hp'
+  have hlenU : (unravel a.vals.shape p).length = a.axes.length := by
+    rw [inRange_length _ _ hin, hshape, List.length_map]
+  refine ⟨hin, ?_, ?_, ?_⟩
+  · have := toList_getElem?_ravel a.vals _ hin
+    rw [ravel_unravel _ _ hp', List.getElem?_eq_getElem hp] at this
+    exact (Option.some.inj this).symm
+  · simp [argWholeLabels, hlenU]
+  · intro i hi hl
+    have hiU : i < (unravel a.vals.shape p).length := hlenU ▸ hi
+    have hbound : (unravel a.vals.shape p)[i] < a.axes[i].labels.length := by
+      have := inRange_getElem a.vals.shape _ hin i (by rw [hshape, List.length_map]; exact hi) hiU
+      simpa [hshape] using this
+    have e1 : (argWholeLabels a p)[i] = a.axes[i].labels[(unravel a.vals.shape p)[i]] := by
+      simp only [argWholeLabels, List.getElem_map, List.getElem_zip]
+      rw [List.getD_eq_getElem?_getD, List.getElem?_eq_getElem hbound]; rfl
+    have e2 : (unravel a.vals.shape p).getD i 0 = (unravel a.vals.shape p)[i] := by
+      rw [List.getD_eq_getElem?_getD, List.getElem?_eq_getElem hiU]; rfl
+    rw [e1, e2, locateOne_none, if_pos (List.getElem_mem hbound),
+      firstIdx_unique (hnd _ (List.getElem_mem hi)) hbound]
+
+/-! ### the hypotheses are satisfiable: the 2 x 3 example of C08 -/
+
+open C08 in
+/-- hypotheses of `diffAxis_iterate`, `diffN_values`, `diffN_labels`, `diffN_empty`, `cum_last_eq_reduce` -/
+example : dealWithAxis ex23 (.one (.name "y")) = .ok (ex23, some 1) ∧ 1 < ex23.axes.length ∧
+    1 < ex23.vals.shape.length ∧ ex23.vals.shape.getD 1 0 = (ex23.axes.getD 1 default).labels.length ∧
+    ex23.ndim ≠ 1 :=
+  ⟨dealWithAxis_name ex23 1 (by decide) (by decide), by decide⟩
+
+open C08 in
+/-- second backward differences along "y": one label left (the last one), `(2-1)-(1-0) = 0` -/
+example : (match diffAxis (· - ·) 0 ex23 (.one (.name "y")) .backward false 2 with
+    | .ok r => (r.vals.shape, (r.axes.getD 1 default).labels, r.vals.get [1, 0])
+    | _ => ([], [], 7)) = ([2, 1], [.str "c"], 0) := by decide
+
+open C08 in
+/-- `n` = size of the axis: an empty axis, not an error -/
+example : (match diffAxis (· - ·) 0 ex23 (.one (.name "y")) .forward false 3 with
+    | .ok r => (r.vals.shape, (r.axes.getD 1 default).labels)
+    | _ => ([7], [])) = ([2, 0], []) := by decide
+
+open C08 in
+/-- last cell of the cumulative sum along "y" = the sum along "y" -/
+example : (match cumAxis isum ex23 (.one (.name "y")) with
+    | .ok (.inr r) => [r.vals.get [0, 2], r.vals.get [1, 2]] | _ => []) = [3, 12] := by decide
+
+open C08 in
+/-- hypotheses of `arg_value_spec` (with the trivially valid position function `fun _ => 0`) and of
+`arg_whole_spec` -/
+example : (ex23.axes.getD 1 default).members = [] ∧ (ex23.axes.getD 1 default).labels.Nodup ∧
+    0 < ex23.vals.shape.getD 1 0 ∧ (∀ cs : List Int, cs ≠ [] → (fun _ => 0) cs < cs.length) ∧
+    ex23.vals.shape = ex23.axes.map (·.labels.length) ∧ (∀ ax ∈ ex23.axes, ax.labels.Nodup) ∧
+    4 < ex23.vals.toList.length ∧ argWholeLabels ex23 4 = [.num 2, .str "b"] :=
+  ⟨by decide, by decide, by decide, fun cs h => List.length_pos_iff.mpr h, by decide, by decide,
+   by decide, by decide⟩
 
 end DimModel
